@@ -128,7 +128,7 @@ Lemma opened_states (st0 st1 : dstate) (data : str) (set_mt : option Z) (more : 
       exists k d, fget (d_fs fin) p = Some (NFile (TNow k) d)) \/
      (d_open fin = Some p /\ refuses fin p = false /\ (forall q, q <> p -> fget (d_fs fin) q = fget f0 q) /\
       exists k, fget (d_fs fin) p = Some (NFile (TNow k) (old ++ data)))
-   else safe fin).
+   else safe fin /\ d_open fin = None).
 Proof.
   intros Hfr Ep Hx Hev Hm1 Hm0 stw fin. subst stw.
   assert (Hfrw : forall dd q, q <> p -> fget (d_fs (write_chunk (count_write st1) p dd)) q = fget f0 q).
@@ -155,10 +155,12 @@ Proof.
         split; [intros q Hq; dsimpl; apply Hfrw; exact Hq|]. dsimpl. rewrite Hpw. eauto.
       * rewrite (Hm1 eq_refl). right. split; [reflexivity|]. split; [apply refuses_none; reflexivity|].
         split; [intros q Hq; dsimpl; apply Hfrw; exact Hq|]. dsimpl. rewrite Hpw. eauto.
-    + split; [exact Hfin_fr|]. unfold fin. destruct (write_fails st1).
+    + split; [split; [exact Hfin_fr|]|]; unfold fin; destruct (write_fails st1).
       * right; left. dsimpl. rewrite Hpw. eauto.
       * destruct (Hm0 eq_refl) as [-> Hfull]. right; right. unfold stamp_file, file_data. dsimpl.
         rewrite fget_fset_eq. cbn [d_fs with_failed with_open]. rewrite Hpw, Hfull. reflexivity.
+      * reflexivity.
+      * destruct (Hm0 eq_refl) as [-> _]. reflexivity.
 Qed.
 
 (* One chunk command from any phase: every observable state is safe (unless a Through event was logged),
@@ -170,7 +172,8 @@ Lemma chunk_step done st data set_mt more :
   let c := CCreateOrUpdateFile p data set_mt more in
   (forall s, In s (cmd_states fl st c) -> no_new_through st s -> safe s) /\
   (no_new_through st (fst (doer_exec fl st c)) ->
-     if more then phase (done ++ [data]) (fst (doer_exec fl st c)) else safe (fst (doer_exec fl st c))).
+     if more then phase (done ++ [data]) (fst (doer_exec fl st c))
+     else safe (fst (doer_exec fl st c)) /\ d_open (fst (doer_exec fl st c)) = None).
 Proof.
   intros Hph Hm1 Hm0 c. subst c. cbn [cmd_states doer_exec].
   pose proof (phase_safe done st Hph) as Hsafe0.
@@ -191,7 +194,8 @@ Proof.
     + intros s [<-|[]] _. apply Hsame_safe. reflexivity.
     + intros _. destruct more.
       * destruct Hph as [Hd Ho Hf|Hd Ho Hr _ _|Ho Hr _ _]; [|congruence|]; apply Hfailed_phase; auto.
-      * apply Hsame_safe. reflexivity.
+      * split; [apply Hsame_safe; reflexivity|]. dsimpl.
+        destruct Hph as [Hd Ho Hf|Hd Ho Hr _ _|Ho Hr _ _]; [exact Ho|congruence|exact Ho].
   - set (st0 := with_failed st (if more then Some p else None)).
     assert (Hx0 : x_failed (d_x st0) = (if more then Some p else None)) by reflexivity.
     destruct Hph as [Hd Ho Hf|Hd Ho Hr Hfr (k0 & Hk0)|Ho Hr _ _]; [| |congruence].
@@ -200,7 +204,7 @@ Proof.
       destruct (open_fresh st0 Ho) as [(e & Eo)|[(q & Eo)|Eo]]; rewrite Eo; cbn [fst].
       * split.
         -- intros s [<-|[]] _. apply Hsame_safe. reflexivity.
-        -- intros _. destruct more; [apply Hfailed_phase; auto|apply Hsame_safe; reflexivity].
+        -- intros _. destruct more; [apply Hfailed_phase; auto|split; [apply Hsame_safe; reflexivity|reflexivity]].
       * split.
         -- intros s [<-|[<-|[]]] Hnt; exfalso; eapply nnt_through; eauto; reflexivity.
         -- intros Hnt. exfalso. eapply nnt_through; eauto. reflexivity.
@@ -230,3 +234,397 @@ Proof.
 Qed.
 
 End Group.
+
+(* ================= the boss's steps under faults, lag, source failures and a dying doer ================= *)
+Lemma cmd_states_chunk_events fl st p data set_mt more s :
+  In s (cmd_states fl st (CCreateOrUpdateFile p data set_mt more)) -> exists l, d_events s = d_events st ++ l.
+Proof.
+  pose proof (doer_exec_events fl st (CCreateOrUpdateFile p data set_mt more)) as Hfin.
+  cbn [cmd_states]. destruct (refuses st p); [intros [<-|[]]; exact Hfin|].
+  set (st0 := with_failed st (if more then Some p else None)).
+  assert (Hop : forall st1, open_for_write st0 p = OpOutside st1 \/ open_for_write st0 p = OpFile st1 ->
+                  exists l, d_events st1 = d_events st ++ l).
+  { intros st1 H. unfold open_for_write in H.
+    destruct H as [H|H]; repeat (break_match_hyp H; try discriminate); inversion H; subst; dsimpl;
+      try (exists []; rewrite app_nil_r; reflexivity); try (eexists; reflexivity). }
+  destruct (open_for_write st0 p) as [st1|st1|e] eqn:Eo.
+  - intros [<-|Hin]; [apply Hop; right; reflexivity|].
+    apply in_app_or in Hin as [Hin|[<-|[]]]; [|exact Hfin].
+    apply in_map_iff in Hin as (k & <- & _). unfold write_chunk. dsimpl. apply Hop. right; reflexivity.
+  - intros [<-|[<-|[]]]; [apply Hop; left; reflexivity|exact Hfin].
+  - intros [<-|[]]; exact Hfin.
+Qed.
+
+Lemma cmd_states_events fl st c s : In s (cmd_states fl st c) -> exists l, d_events s = d_events st ++ l.
+Proof.
+  destruct c; try (intros [<-|[]]; apply doer_exec_events). apply cmd_states_chunk_events.
+Qed.
+
+Lemma nonmut_noop fl st c : mutating c = false -> doer_exec fl st c = (st, None).
+Proof. destruct c; try discriminate; reflexivity. Qed.
+
+(* a command that is not a file chunk neither opens or closes a transfer nor produces a time-stamped file *)
+Lemma nonchunk_exec fl st c :
+  is_chunk c = false ->
+  d_open (fst (doer_exec fl st c)) = d_open st /\
+  forall q mt d, fget (d_fs (fst (doer_exec fl st c))) q = Some (NFile (TSet mt) d) ->
+                 fget (d_fs st) q = Some (NFile (TSet mt) d).
+Proof.
+  intros Hc. destruct (doer_exec fl st c) as [st' e] eqn:H. cbn [fst].
+  destruct c; try discriminate Hc; cbn [doer_exec] in H;
+    repeat (break_match_hyp H; try discriminate); inv_pair H; dsimpl; (split; [reflexivity|]);
+    intros q' mt0 d0 Hq; try exact Hq;
+    match goal with
+    | Hq : fget (fset _ ?p _) q' = _ |- _ =>
+        destruct (path_eq_dec q' p) as [->|Hne]; [rewrite fget_fset_eq in Hq; discriminate|rewrite fget_fset_ne in Hq by exact Hne; exact Hq]
+    | Hq : fget (fdel _ ?p) q' = _ |- _ =>
+        destruct (path_eq_dec q' p) as [->|Hne]; [rewrite fget_fdel_eq in Hq; discriminate|rewrite fget_fdel_ne in Hq by exact Hne; exact Hq]
+    end.
+Qed.
+
+Section Plan.
+Variable fl : flavour.
+Variable ft : faults.
+
+Definition stopped (r : rstate) (c : cmd) : bool :=
+  mutating c && match ft_stop ft with Some n => Nat.leb n (rs_mut r) | None => false end.
+Definition injected (r : rstate) (c : cmd) : bool :=
+  mutating c && negb (is_chunk c) && mem_nat (rs_mut r) (ft_dest ft).
+
+(* the command the destination doer really executes in this step, if any *)
+Definition executes (r : rstate) (s : bstep) : option cmd :=
+  if rs_srcfail r then None else
+  match rs_budget r with
+  | Some O => None
+  | _ => match s with
+         | SrcFetch _ => None
+         | DestCmd c => if stopped r c then None else if injected r c then None else Some c
+         end
+  end.
+
+Lemma do_step_d r s :
+  rs_d (do_step fl ft r s) =
+  match s with
+  | SrcFetch _ => rs_d r
+  | DestCmd c => if stopped r c then rs_d r else if injected r c then rs_d r else fst (doer_exec fl (rs_d r) c)
+  end.
+Proof.
+  unfold do_step, stopped, injected. destruct s as [c|q]; [|reflexivity]. cbv zeta.
+  destruct (mutating c && match ft_stop ft with Some n => Nat.leb n (rs_mut r) | None => false end); cbn [fst snd rs_d]; [reflexivity|].
+  destruct (mutating c && negb (is_chunk c) && mem_nat (rs_mut r) (ft_dest ft)); cbn [fst snd rs_d]; [reflexivity|].
+  destruct (snd (doer_exec fl (rs_d r) c)); reflexivity.
+Qed.
+
+Lemma run_step_d r s :
+  rs_d (run_step fl ft r s) = match executes r s with Some c => fst (doer_exec fl (rs_d r) c) | None => rs_d r end.
+Proof.
+  unfold run_step, executes. destruct (rs_srcfail r); [reflexivity|].
+  destruct (rs_budget r) as [[|k]|]; [reflexivity| |]; rewrite do_step_d; destruct s as [c|q]; try reflexivity;
+    destruct (stopped r c); try reflexivity; destruct (injected r c); reflexivity.
+Qed.
+
+Lemma do_step_mut r s : rs_mut r <= rs_mut (do_step fl ft r s).
+Proof.
+  unfold do_step. destruct s as [c|q]; cbv zeta; [|cbn [rs_mut]; lia].
+  destruct (snd _); cbn [rs_mut]; destruct (mutating c); lia.
+Qed.
+Lemma run_step_mut r s : rs_mut r <= rs_mut (run_step fl ft r s).
+Proof.
+  unfold run_step. destruct (rs_srcfail r); [lia|]. destruct (rs_budget r) as [[|k]|]; [lia| |]; apply do_step_mut.
+Qed.
+
+(* nothing mutating is executed any more *)
+Definition dead (r : rstate) : Prop :=
+  rs_srcfail r = true \/ rs_budget r = Some 0 \/ exists n, ft_stop ft = Some n /\ n <= rs_mut r.
+
+Lemma dead_step r s : dead r -> dead (run_step fl ft r s).
+Proof.
+  intros [H|[H|(n & Hn & Hle)]].
+  - unfold run_step. rewrite H. left; exact H.
+  - unfold run_step. rewrite H. destruct (rs_srcfail r) eqn:E; [left; exact E|right; left; exact H].
+  - right; right. exists n. split; [exact Hn|]. pose proof (run_step_mut r s). lia.
+Qed.
+
+Lemma executes_dead r s c : dead r -> executes r s = Some c -> mutating c = false.
+Proof.
+  unfold executes. intros Hd. destruct (rs_srcfail r) eqn:Es; [discriminate|].
+  destruct Hd as [H|[H|(n & Hn & Hle)]]; [congruence|rewrite H; discriminate|].
+  assert (Hst : forall c', mutating c' = true -> stopped r c' = true).
+  { intros c' Hm. unfold stopped. rewrite Hm, Hn. cbn [andb]. apply Nat.leb_le. exact Hle. }
+  destruct (rs_budget r) as [[|k]|]; [discriminate| |]; (destruct s as [c'|q]; [|discriminate]);
+    destruct (mutating c') eqn:Em; try (rewrite (Hst c' Em); discriminate);
+    destruct (stopped r c'); try discriminate; destruct (injected r c'); try discriminate;
+    intros H; inversion H; subst; exact Em.
+Qed.
+
+Lemma chunk_skipped_dead r c : is_chunk c = true -> executes r (DestCmd c) = None -> dead (run_step fl ft r (DestCmd c)).
+Proof.
+  intros Hc. unfold executes. destruct (rs_srcfail r) eqn:Es.
+  { intros _. apply dead_step. left; exact Es. }
+  destruct (rs_budget r) as [[|k]|] eqn:Eb.
+  { intros _. apply dead_step. right; left; exact Eb. }
+  all: assert (Hi : injected r c = false) by (unfold injected; rewrite Hc; cbn [negb]; rewrite andb_false_r; reflexivity);
+       rewrite Hi; destruct (stopped r c) eqn:Est; [|discriminate]; intros _;
+       unfold stopped in Est; apply andb_true_iff in Est as [_ Est];
+       destruct (ft_stop ft) as [n|] eqn:En; [|discriminate]; apply Nat.leb_le in Est;
+       right; right; exists n; (split; [exact En|]); pose proof (run_step_mut r (DestCmd c)); lia.
+Qed.
+
+(* every state of the destination that a kill (or a lost link) can leave behind during these steps *)
+Definition step_states (r : rstate) (s : bstep) : list dstate :=
+  match executes r s with Some c => cmd_states fl (rs_d r) c | None => [] end.
+Fixpoint steps_states (r : rstate) (steps : list bstep) : list dstate :=
+  match steps with
+  | [] => []
+  | s :: rest => step_states r s ++ steps_states (run_step fl ft r s) rest
+  end.
+
+Lemma steps_states_app steps1 : forall r steps2,
+  steps_states r (steps1 ++ steps2) = steps_states r steps1 ++ steps_states (run_steps fl ft r steps1) steps2.
+Proof.
+  induction steps1 as [|s rest IH]; intros r steps2; [reflexivity|].
+  cbn [app steps_states]. rewrite IH, <- app_assoc. reflexivity.
+Qed.
+Lemma run_steps_app steps1 steps2 r : run_steps fl ft r (steps1 ++ steps2) = run_steps fl ft (run_steps fl ft r steps1) steps2.
+Proof. unfold run_steps. apply fold_left_app. Qed.
+
+Lemma run_step_events r s : exists l, d_events (rs_d (run_step fl ft r s)) = d_events (rs_d r) ++ l.
+Proof.
+  rewrite run_step_d. destruct (executes r s); [apply doer_exec_events|exists []; rewrite app_nil_r; reflexivity].
+Qed.
+Lemma run_steps_events steps : forall r, exists l, d_events (rs_d (run_steps fl ft r steps)) = d_events (rs_d r) ++ l.
+Proof.
+  induction steps as [|s rest IH]; intros r; [exists []; rewrite app_nil_r; reflexivity|].
+  change (run_steps fl ft r (s :: rest)) with (run_steps fl ft (run_step fl ft r s) rest).
+  destruct (IH (run_step fl ft r s)) as (l2 & E2). destruct (run_step_events r s) as (l1 & E1).
+  exists (l1 ++ l2). rewrite E2, E1, app_assoc. reflexivity.
+Qed.
+Lemma steps_states_events steps : forall r s, In s (steps_states r steps) -> exists l, d_events s = d_events (rs_d r) ++ l.
+Proof.
+  induction steps as [|st rest IH]; intros r s; cbn [steps_states]; [intros []|].
+  intros Hin. apply in_app_or in Hin as [Hin|Hin].
+  - unfold step_states in Hin. destruct (executes r st); [eapply cmd_states_events; exact Hin|destruct Hin].
+  - destruct (IH _ _ Hin) as (l2 & E2). destruct (run_step_events r st) as (l1 & E1).
+    exists (l1 ++ l2). rewrite E2, E1, app_assoc. reflexivity.
+Qed.
+
+(* once dead, the destination is frozen *)
+Lemma dead_frozen steps : forall r, dead r ->
+  (forall s, In s (steps_states r steps) -> s = rs_d r) /\ rs_d (run_steps fl ft r steps) = rs_d r /\ dead (run_steps fl ft r steps).
+Proof.
+  induction steps as [|st rest IH]; intros r Hd; [repeat split; [intros s []|exact Hd]|].
+  change (run_steps fl ft r (st :: rest)) with (run_steps fl ft (run_step fl ft r st) rest). cbn [steps_states].
+  assert (Hsame : rs_d (run_step fl ft r st) = rs_d r).
+  { rewrite run_step_d. destruct (executes r st) as [c|] eqn:E; [|reflexivity].
+    rewrite (nonmut_noop fl _ c (executes_dead r st c Hd E)). reflexivity. }
+  destruct (IH (run_step fl ft r st) (dead_step r st Hd)) as (I1 & I2 & I3).
+  repeat split; [|rewrite I2; exact Hsame|exact I3].
+  intros s Hin. apply in_app_or in Hin as [Hin|Hin]; [|rewrite (I1 s Hin); exact Hsame].
+  unfold step_states in Hin. destruct (executes r st) as [c|] eqn:E; [|destruct Hin].
+  pose proof (executes_dead r st c Hd E) as Hm.
+  destruct c; try discriminate Hm; destruct Hin as [<-|[]]; reflexivity.
+Qed.
+
+End Plan.
+
+Lemma nt_prefix a l : no_through (a ++ l) -> no_through a.
+Proof. intros H. apply no_through_app in H. tauto. Qed.
+Lemma nt_dec l : {no_through l} + {~ no_through l}.
+Proof. unfold no_through. destruct (forallb _ l); [left; reflexivity|right; discriminate]. Qed.
+Lemma no_new_of_no_through st s :
+  (exists l, d_events s = d_events st ++ l) -> no_through (d_events s) -> no_new_through st s.
+Proof.
+  intros (l & E) H. unfold no_new_through. rewrite E in *. rewrite skipn_app, skipn_all, Nat.sub_diag.
+  cbn [skipn app]. apply no_through_app in H. tauto.
+Qed.
+Lemma executes_some ft r s c : executes ft r s = Some c -> s = DestCmd c.
+Proof.
+  unfold executes. destruct (rs_srcfail r); [discriminate|].
+  destruct (rs_budget r) as [[|k]|]; [discriminate| |]; (destruct s as [c'|q]; [|discriminate]);
+    destruct (stopped ft r c'); try discriminate; destruct (injected ft r c'); try discriminate;
+    intros H; inversion H; reflexivity.
+Qed.
+Lemma executes_fetch ft r q : executes ft r (SrcFetch q) = None.
+Proof. unfold executes. destruct (rs_srcfail r); [reflexivity|]. destruct (rs_budget r) as [[|k]|]; reflexivity. Qed.
+
+(* ---- the chunks of one file, as the boss sends them ---- *)
+Section FileBlock.
+Variable fl : flavour.
+Variable ft : faults.
+Variable p : path.
+Variable mt : Z.
+Variable full : str.
+Variable f0 : fs.
+Notation v0 := (fget f0 p).
+Notation safe' := (safe p mt full v0 f0).
+Notation phase' := (phase p v0 f0).
+
+Lemma file_block : forall chunks done r,
+  chunks <> [] -> concat (done ++ chunks) = full -> phase' done (rs_d r) ->
+  (forall s, In s (steps_states fl ft r (chunk_cmds p mt chunks)) -> no_through (d_events s) -> safe' s) /\
+  (no_through (d_events (rs_d (run_steps fl ft r (chunk_cmds p mt chunks)))) ->
+   safe' (rs_d (run_steps fl ft r (chunk_cmds p mt chunks))) /\
+   (d_open (rs_d (run_steps fl ft r (chunk_cmds p mt chunks))) = None \/ dead ft (run_steps fl ft r (chunk_cmds p mt chunks)))).
+Proof.
+  induction chunks as [|c rest IH]; intros done r Hne Hfull Hph; [congruence|].
+  pose proof (phase_safe p mt full v0 f0 eq_refl done (rs_d r) Hph) as Hsafe_r.
+  destruct rest as [|c2 rest'].
+  - (* the last chunk *)
+    cbn [chunk_cmds steps_states]. rewrite app_nil_r.
+    change (run_steps fl ft r [DestCmd (CCreateOrUpdateFile p c (Some mt) false)])
+      with (run_step fl ft r (DestCmd (CCreateOrUpdateFile p c (Some mt) false))).
+    set (cmd := CCreateOrUpdateFile p c (Some mt) false).
+    unfold step_states. rewrite run_step_d.
+    destruct (executes ft r (DestCmd cmd)) as [c0|] eqn:E.
+    + apply executes_some in E as E'. inversion E'; subst c0. clear E'.
+      destruct (chunk_step fl p mt full v0 f0 eq_refl done (rs_d r) c (Some mt) false Hph) as [Hs Hf];
+        [discriminate|intros _; split; [reflexivity|exact Hfull]|].
+      split.
+      * intros s Hin Hnt. apply Hs; [exact Hin|]. apply no_new_of_no_through; [eapply cmd_states_events; exact Hin|exact Hnt].
+      * intros Hnt. destruct Hf as [Hf1 Hf2]; [apply no_new_of_no_through; [apply doer_exec_events|exact Hnt]|].
+        split; [exact Hf1|left; exact Hf2].
+    + split; [intros s []|]. intros _. split; [exact Hsafe_r|]. right.
+      apply chunk_skipped_dead; [reflexivity|exact E].
+  - (* a chunk with more to follow *)
+    set (cmd := CCreateOrUpdateFile p c None true).
+    change (chunk_cmds p mt (c :: c2 :: rest')) with (DestCmd cmd :: chunk_cmds p mt (c2 :: rest')).
+    change (run_steps fl ft r (DestCmd cmd :: chunk_cmds p mt (c2 :: rest')))
+      with (run_steps fl ft (run_step fl ft r (DestCmd cmd)) (chunk_cmds p mt (c2 :: rest'))).
+    cbn [steps_states]. unfold step_states.
+    pose proof (run_step_d fl ft r (DestCmd cmd)) as Hd1.
+    destruct (executes ft r (DestCmd cmd)) as [c0|] eqn:E.
+    + apply executes_some in E as E'. inversion E'; subst c0. clear E'.
+      destruct (chunk_step fl p mt full v0 f0 eq_refl done (rs_d r) c None true Hph) as [Hs Hf];
+        [reflexivity|discriminate|].
+      set (r1 := run_step fl ft r (DestCmd cmd)) in *.
+      assert (Hph1 : no_through (d_events (rs_d r1)) -> phase' (done ++ [c]) (rs_d r1)).
+      { intros Hnt. rewrite Hd1. rewrite Hd1 in Hnt. apply Hf. apply no_new_of_no_through; [apply doer_exec_events|exact Hnt]. }
+      assert (Hfull1 : concat ((done ++ [c]) ++ c2 :: rest') = full) by (rewrite <- app_assoc; exact Hfull).
+      split.
+      * intros s Hin Hnt. apply in_app_or in Hin as [Hin|Hin].
+        -- apply Hs; [exact Hin|]. apply no_new_of_no_through; [eapply cmd_states_events; exact Hin|exact Hnt].
+        -- destruct (steps_states_events fl ft _ _ _ Hin) as (l & El).
+           assert (Hnt1 : no_through (d_events (rs_d r1))) by (rewrite El in Hnt; eapply nt_prefix; exact Hnt).
+           destruct (IH (done ++ [c]) r1 ltac:(discriminate) Hfull1 (Hph1 Hnt1)) as [I1 _]. apply I1; assumption.
+      * intros Hnt.
+        destruct (run_steps_events fl ft (chunk_cmds p mt (c2 :: rest')) r1) as (l & El).
+        assert (Hnt1 : no_through (d_events (rs_d r1))) by (rewrite El in Hnt; eapply nt_prefix; exact Hnt).
+        destruct (IH (done ++ [c]) r1 ltac:(discriminate) Hfull1 (Hph1 Hnt1)) as [_ I2]. apply I2. exact Hnt.
+    + (* not executed: nothing mutating is executed after it either *)
+      set (r1 := run_step fl ft r (DestCmd cmd)) in *.
+      assert (Hdead : dead ft r1) by (apply chunk_skipped_dead; [reflexivity|exact E]).
+      destruct (dead_frozen fl ft (chunk_cmds p mt (c2 :: rest')) r1 Hdead) as (F1 & F2 & F3).
+      split.
+      * intros s Hin _. cbn [app] in Hin. rewrite (F1 s Hin), Hd1. exact Hsafe_r.
+      * intros _. rewrite F2, Hd1. split; [exact Hsafe_r|right; exact F3].
+Qed.
+
+End FileBlock.
+
+(* ================= the whole plan ================= *)
+Section Main.
+Variable fl : flavour.
+Variable ft : faults.
+Variable S : fs.       (* the source *)
+Variable D0 : fs.      (* the destination before the run *)
+
+(* C08's invariant: a file that carries a set time (as opposed to the time of its last write) is either
+   the file that was there before the run, or holds exactly the complete bytes of the source file *)
+Definition Good (s : dstate) : Prop :=
+  forall q t d, fget (d_fs s) q = Some (NFile (TSet t) d) ->
+    fget D0 q = Some (NFile (TSet t) d) \/ exists m, fget S q = Some (NFile m d).
+
+(* the shape of what the boss sends: single commands, source reads, and per file the chunks of its bytes *)
+Inductive plan_ok : list bstep -> Prop :=
+| pk_nil : plan_ok []
+| pk_cmd c rest : is_chunk c = false -> plan_ok rest -> plan_ok (DestCmd c :: rest)
+| pk_fetch q rest : plan_ok rest -> plan_ok (SrcFetch q :: rest)
+| pk_file p mt chunks m rest :
+    chunks <> [] -> fget S p = Some (NFile m (concat chunks)) -> plan_ok rest ->
+    plan_ok (chunk_cmds p mt chunks ++ rest).
+
+Definition J (r : rstate) : Prop :=
+  no_through (d_events (rs_d r)) -> Good (rs_d r) /\ (d_open (rs_d r) = None \/ dead ft r).
+
+Definition Goal_for (r : rstate) (steps : list bstep) : Prop :=
+  (forall s, In s (steps_states fl ft r steps) -> no_through (d_events s) -> Good s) /\ J (run_steps fl ft r steps).
+
+Lemma vacuous_after r steps : ~ no_through (d_events (rs_d r)) -> Goal_for r steps.
+Proof.
+  intros Hn. split.
+  - intros s Hin Hnt. exfalso. apply Hn. destruct (steps_states_events fl ft _ _ _ Hin) as (l & El).
+    rewrite El in Hnt. eapply nt_prefix; exact Hnt.
+  - intros Hnt. exfalso. apply Hn. destruct (run_steps_events fl ft steps r) as (l & El).
+    rewrite El in Hnt. eapply nt_prefix; exact Hnt.
+Qed.
+
+Lemma dead_case r steps : Good (rs_d r) -> dead ft r -> Goal_for r steps.
+Proof.
+  intros HG Hd. destruct (dead_frozen fl ft steps r Hd) as (F1 & F2 & F3). split.
+  - intros s Hin _. rewrite (F1 s Hin). exact HG.
+  - intros _. rewrite F2. split; [exact HG|right; exact F3].
+Qed.
+
+Lemma Goal_cons r s rest :
+  (forall x, In x (step_states fl ft r s) -> no_through (d_events x) -> Good x) ->
+  (J (run_step fl ft r s) -> Goal_for (run_step fl ft r s) rest) -> J (run_step fl ft r s) ->
+  Goal_for r (s :: rest).
+Proof.
+  intros H1 H2 HJ. destruct (H2 HJ) as [G1 G2]. split.
+  - intros x Hin Hnt. cbn [steps_states] in Hin. apply in_app_or in Hin as [Hin|Hin]; [apply H1|apply G1]; assumption.
+  - exact G2.
+Qed.
+
+Lemma safe_good p mt full f0 m s :
+  (forall q t d, fget f0 q = Some (NFile (TSet t) d) ->
+     fget D0 q = Some (NFile (TSet t) d) \/ exists m, fget S q = Some (NFile m d)) ->
+  fget S p = Some (NFile m full) -> safe p mt full (fget f0 p) f0 s -> Good s.
+Proof.
+  intros HG HS [Hfr Hp] q t d Hq. destruct (path_eq_dec q p) as [->|Hne].
+  - destruct Hp as [Hp|[(k & dd & Hp)|Hp]].
+    + apply HG. rewrite <- Hp. exact Hq.
+    + rewrite Hp in Hq. discriminate.
+    + rewrite Hp in Hq. inversion Hq; subst. right. exists m. exact HS.
+  - apply HG. rewrite <- (Hfr q Hne). exact Hq.
+Qed.
+
+Theorem plan_safe steps : plan_ok steps -> forall r, J r -> Goal_for r steps.
+Proof.
+  induction 1 as [|c rest Hc Hrest IH|q rest Hrest IH|p mt chunks m rest Hne HS Hrest IH]; intros r HJ.
+  - split; [intros s []|exact HJ].
+  - (* a single command that is not a chunk *)
+    destruct (nt_dec (d_events (rs_d r))) as [Hnt|Hnt]; [|apply vacuous_after; exact Hnt].
+    destruct (HJ Hnt) as [HG [Ho|Hd]]; [|apply dead_case; assumption].
+    destruct (nonchunk_exec fl (rs_d r) c Hc) as [Hopen Hstamped].
+    assert (HG1 : Good (fst (doer_exec fl (rs_d r) c))).
+    { intros q' t d Hq. apply HG. apply Hstamped. exact Hq. }
+    apply Goal_cons; [|apply IH|].
+    + intros x Hin _. unfold step_states in Hin. destruct (executes ft r (DestCmd c)) as [c0|] eqn:E; [|destruct Hin].
+      apply executes_some in E. inversion E; subst c0.
+      destruct c; try discriminate Hc; destruct Hin as [<-|[]]; exact HG1.
+    + intros _. rewrite run_step_d. destruct (executes ft r (DestCmd c)) as [c0|] eqn:E.
+      * apply executes_some in E. inversion E; subst c0. split; [exact HG1|left; rewrite Hopen; exact Ho].
+      * split; [exact HG|left; exact Ho].
+  - (* a read on the source *)
+    destruct (nt_dec (d_events (rs_d r))) as [Hnt|Hnt]; [|apply vacuous_after; exact Hnt].
+    destruct (HJ Hnt) as [HG [Ho|Hd]]; [|apply dead_case; assumption].
+    apply Goal_cons; [|apply IH|].
+    + intros x Hin _. unfold step_states in Hin. rewrite executes_fetch in Hin. destruct Hin.
+    + intros _. rewrite run_step_d, executes_fetch. split; [exact HG|left; exact Ho].
+  - (* the chunks of a file *)
+    destruct (nt_dec (d_events (rs_d r))) as [Hnt|Hnt]; [|apply vacuous_after; exact Hnt].
+    destruct (HJ Hnt) as [HG [Ho|Hd]]; [|apply dead_case; assumption].
+    assert (Hph : phase p (fget (d_fs (rs_d r)) p) (d_fs (rs_d r)) [] (rs_d r)) by (apply ph_start; auto).
+    destruct (file_block fl ft p mt (concat chunks) (d_fs (rs_d r)) chunks [] r Hne eq_refl Hph) as [B1 B2].
+    assert (Hsg : forall s, safe p mt (concat chunks) (fget (d_fs (rs_d r)) p) (d_fs (rs_d r)) s -> Good s).
+    { intros s. apply (safe_good p mt (concat chunks) (d_fs (rs_d r)) m s); [exact HG|exact HS]. }
+    assert (HJ1 : J (run_steps fl ft r (chunk_cmds p mt chunks))).
+    { intros Hnt1. destruct (B2 Hnt1) as [Hs1 Hod]. split; [apply Hsg; exact Hs1|exact Hod]. }
+    destruct (IH _ HJ1) as [G1 G2]. split.
+    + intros s Hin Hnts. rewrite steps_states_app in Hin. apply in_app_or in Hin as [Hin|Hin].
+      * apply Hsg. apply B1; assumption.
+      * apply G1; assumption.
+    + rewrite run_steps_app. exact G2.
+Qed.
+
+End Main.
